@@ -797,6 +797,40 @@ def run(tier: str) -> int:
                 ncrash += analyse(rep, kind, mode, f.ops, tag)
                 recs.append(tla_trace(kind, mode, f.ops))
                 rep.count((kind, mode, "resume0"), nontrivial=True)
+        # ---- resuming onto the SAME restart path (given as a path, default mode): the file written by the earlier run must
+        # still load to a saved state at every moment before the resumed run makes its first observer call -- opening it
+        # must not empty it --------------------------------------------------------------------------------------------------
+        from quansino.moves.displacement import DisplacementMove as _DM
+        from quansino.moves.exchange import ExchangeMove as _EM
+        from quansino.operations.displacement import Ball as _Ball
+
+        for kw in ({}, {"logging_mode": "a"}):
+            d = os.path.join(tmp, f"samepath_{len(kw)}")
+            os.makedirs(d)
+            rpath = os.path.join(d, "restart.json")
+            try:
+                rs_ = np.random.RandomState(5)
+                at_ = Atoms("Cu3", positions=rs_.rand(3, 3) * 3 + 2, cell=[8, 8, 8], pbc=True)
+                at_.calc = Harmonic(k=0.05, centers=at_.positions, eps=0.01)
+                first = _GC(at_, exchange_atoms=Atoms("Cu", positions=[[0, 0, 0]]), temperature=3000.0, chemical_potential=-3.7, number_of_exchange_particles=3, max_cycles=2, seed=rep.seed % 1000 + 77, restart_file=rpath, **kw)
+                first.add_move(_EM(np.arange(3)), name="exch")
+                first.add_move(_DM(np.arange(3), _Ball(0.3)), name="disp", probability=0.3)
+                first.run(3)
+                first.close()
+                before = open(rpath).read()
+                data = _read_json(rpath)
+                second = _GC.from_dict(data, restart_file=rpath, **kw)
+                rep.count(("restart", "same-path", len(kw)), nontrivial=True)
+                now = open(rpath).read()
+                ok_now = now == before
+                second.atoms.calc = Harmonic(k=0.05, centers=at_.calc.centers, eps=0.01)
+                second.run(1)
+                second.close()
+                after = _read_json(rpath)
+                if not ok_now:
+                    rep.violation("restart:emptied-when-reopened", f"rebuilding a simulation onto the restart path of the earlier run ({'default mode' if not kw else kw}) changed the file before any observer call: {len(before)} bytes -> {len(now)} bytes; a crash now loses the saved state", {"kw": kw, "bytes_before": len(before), "bytes_now": len(now)})
+            except Exception as ex:  # noqa: BLE001
+                rep.violation(f"raise:resume-same-path:{type(ex).__name__}", f"resuming onto the same restart path raised {ex!r}", {"kw": kw})
         # ---- the user calls the restart observer himself (a checkpoint right after the moves of a step, when the atoms
         # have changed but the step counter has not advanced yet): after EVERY observer call the file describes the latest
         # state -----------------------------------------------------------------------------------------------------------
